@@ -96,9 +96,10 @@ package destination
 //@ func (s *Spool) Close()
 //@   trusted
 //@   modifies *
+//@ // (re)connects and hands the new connection to the relay loop; may adopt a new address and re-register the metrics
 //@ func (dest *Destination) updateConn(addr string)
 //@   trusted
-//@   modifies *
+//@   modifies dest.Addr, dest.Instance, dest.Key, sent(dest.inConnUpdate), sent(dest.connUpdates), dest.numDropNoConnNoSpool, dest.numDropSlowSpool, dest.numDropSlowConn
 //@ func (dest *Destination) collectRedo(conn *Conn)
 //@   trusted
 //@   modifies *
@@ -309,3 +310,28 @@ package destination
 //@   requires initialCap >= 0
 //@   modifies *
 //@   ensures[two_buffers; C07] k != nil && len(k.safeOld) == 0 && len(k.safeRecent) == 0 && k.safeOld.arr != k.safeRecent.arr && k.initialCap == initialCap && k.periodKeep == periodKeep && k.closed != nil && !k.Mutex.held
+//@
+//@ // ---------------------------------------------------------------- modDest (C14, C20): only the named options change
+//@ func (dest *Destination) GetMatcher() (m matcher.Matcher)
+//@   requires !dest.lockMatcher.held
+//@   modifies dest.lockMatcher.held
+//@   ensures !dest.lockMatcher.held && m.Prefix == dest.Matcher.Prefix && m.NotPrefix == dest.Matcher.NotPrefix && m.Sub == dest.Matcher.Sub && m.NotSub == dest.Matcher.NotSub && m.Regex == dest.Matcher.Regex && m.NotRegex == dest.Matcher.NotRegex
+//@ func (dest *Destination) Update(opts map[string]string) (err error)
+//@   property C14,C20
+//@   requires !dest.lockMatcher.held && opts != nil
+//@   modifies *
+//@   ensures[unknown_option_refused; C20] (exists k bytes :: has(opts, k) && k != "addr" && k != "prefix" && k != "notPrefix" && k != "sub" && k != "notSub" && k != "regex" && k != "notRegex") ==> err != nil
+//@   ensures[named_options_applied; C20] err == nil ==> dest.Matcher.Prefix == (has(opts, "prefix") ? opts["prefix"] : old(dest.Matcher.Prefix)) && dest.Matcher.NotPrefix == (has(opts, "notPrefix") ? opts["notPrefix"] : old(dest.Matcher.NotPrefix))
+//@        && dest.Matcher.Sub == (has(opts, "sub") ? opts["sub"] : old(dest.Matcher.Sub)) && dest.Matcher.NotSub == (has(opts, "notSub") ? opts["notSub"] : old(dest.Matcher.NotSub))
+//@        && dest.Matcher.Regex == (has(opts, "regex") ? opts["regex"] : old(dest.Matcher.Regex)) && dest.Matcher.NotRegex == (has(opts, "notRegex") ? opts["notRegex"] : old(dest.Matcher.NotRegex))
+//@   loop 1:
+//@     invariant[seen] !dest.lockMatcher.held && dest.Matcher.Prefix == old(dest.Matcher.Prefix) && dest.Matcher.NotPrefix == old(dest.Matcher.NotPrefix) && dest.Matcher.Sub == old(dest.Matcher.Sub) && dest.Matcher.NotSub == old(dest.Matcher.NotSub) && dest.Matcher.Regex == old(dest.Matcher.Regex) && dest.Matcher.NotRegex == old(dest.Matcher.NotRegex)
+//@     invariant[visited_in_map] forall k bytes :: #visited[k] ==> has(opts, k)
+//@     invariant[only_known] forall k bytes :: #visited[k] ==> (k == "addr" || k == "prefix" || k == "notPrefix" || k == "sub" || k == "notSub" || k == "regex" || k == "notRegex")
+//@     invariant[prefix] prefix == (#visited["prefix"] ? opts["prefix"] : old(dest.Matcher.Prefix))
+//@     invariant[notPrefix] notPrefix == (#visited["notPrefix"] ? opts["notPrefix"] : old(dest.Matcher.NotPrefix))
+//@     invariant[sub] sub == (#visited["sub"] ? opts["sub"] : old(dest.Matcher.Sub))
+//@     invariant[notSub] notSub == (#visited["notSub"] ? opts["notSub"] : old(dest.Matcher.NotSub))
+//@     invariant[regex] regex == (#visited["regex"] ? opts["regex"] : old(dest.Matcher.Regex))
+//@     invariant[notRegex] notRegex == (#visited["notRegex"] ? opts["notRegex"] : old(dest.Matcher.NotRegex))
+//@     invariant[flag] updateMatcher == (#visited["prefix"] || #visited["notPrefix"] || #visited["sub"] || #visited["notSub"] || #visited["regex"] || #visited["notRegex"])
